@@ -34,7 +34,7 @@ LEAN = dict(
     theorems=[T + n for n in [
         "isInternal_iff", "isInternal_of_reserved_seg", "metaBase_roundtrip", "metaBase_is_reserved",
         "methods_guarded", "reserved_rejected", "reserved_rejected_table", "userView_hides",
-        "contains_reserved_rejected", "near_miss_not_reserved"]]
+        "contains_reserved_rejected", "near_miss_not_reserved", "bookkeeping_invisible", "userView_refines", "userView_history"]]
     + [B1 + n for n in ["gen_is_internal_path", "gen_is_meta_base_path", "gen_to_meta_base_path",
                         "gen_to_data_node_path", "gen_constants"]]
     + [B2 + n for n in ["methods_guarded", "listings_filtered", "protocol_covered", "unknown_refused",
@@ -501,6 +501,14 @@ def impl_plant(case):
                 raw.require_group(p)
             else:
                 raw[p] = 1
+        for ro in case.get("rawops", []):
+            if ro[0] == "delete":
+                del raw[ro[1]]
+            elif ro[0] == "copy":
+                raw.copy(ro[1], ro[2])
+            elif ro[0] == "move":
+                raw.move(ro[1], ro[2])
+            tags.add("rawop:" + ro[0])
         for q in case["queries"]:
             g = mc if q[1] == "/" else mc[q[1]]
             if q[0] == "keys":
@@ -579,6 +587,8 @@ def lines(case):
     elif k == "plant":
         for p, kind in case["nodes"]:
             L.append("node %s %s" % (hx(p), kind))
+        for ro in case.get("rawops", []):
+            L.append("rop %s %s" % (ro[0], " ".join(hx(x) for x in ro[1:])))
         for q in case["queries"]:
             if q[0] == "keys":
                 L.append("keys " + hx(q[1]))
@@ -605,7 +615,7 @@ def lines(case):
 def compare(case, ir, mo):
     if case["kind"] == "plant":
         # the driver also prints one `ok` per planted node
-        n = len(case["nodes"])
+        n = len(case["nodes"]) + len(case.get("rawops", []))
         return core.default_compare(case, dict(out=["ok"] * n + ir["out"]), mo)
     if case["kind"] == "hist":
         a = ir["out"]
@@ -835,6 +845,35 @@ def plant_cases(ctx):
             nodes.append([p, kind])
             if kind == "g":
                 groups.append(p)
+        # raw operations on the planted tree (validates the flat model of delete / copy / move)
+        rawops = []
+        cur = {p: k for p, k in nodes}
+
+        def below(p, q):
+            return q == p or q.startswith(p + "/")
+        for _ in range(rng.randrange(0, 3)):
+            if not cur:
+                break
+            kind = rng.choice(["delete", "copy", "move"])
+            src = rng.choice(sorted(cur))
+            if kind == "delete":
+                rawops.append(["delete", src])
+                for q in [q for q in cur if below(src, q)]:
+                    del cur[q]
+            else:
+                par = rng.choice(["/"] + sorted(q for q, k in cur.items() if k == "g" and not (kind == "move" and below(src, q))))
+                dst = (par if par != "/" else "") + "/" + rng.choice(["cp1", "cp2", "metador_cp", "xmetador_cp"])
+                if dst in cur:
+                    continue
+                rawops.append([kind, src, dst])
+                sub = {q: k for q, k in cur.items() if below(src, q)}
+                for q, k in sub.items():
+                    cur[dst + q[len(src):]] = k
+                if kind == "move":
+                    for q in sub:
+                        del cur[q]
+        groups = ["/"] + sorted(q for q, k in cur.items() if k == "g")
+        nodes_after = [[q, k] for q, k in sorted(cur.items())]
         user_groups = [g for g in groups if not has_reserved(g)]
         queries = []
         for g in user_groups:
@@ -842,8 +881,8 @@ def plant_cases(ctx):
             queries.append(["visit", g])
         for _ in range(6):
             g = rng.choice(user_groups)
-            if nodes and rng.random() < 0.7:
-                p = rng.choice(nodes)[0]
+            if nodes_after and rng.random() < 0.7:
+                p = rng.choice(nodes_after)[0]
                 if g != "/" and p.startswith(g + "/") and rng.random() < 0.7:
                     p = p[len(g) + 1:]
                 elif g == "/" and rng.random() < 0.5:
@@ -851,10 +890,10 @@ def plant_cases(ctx):
             else:
                 p = rand_path(rng, [], 0.3, 0.3)
             ab = p if p.startswith("/") else (g if g != "/" else "") + "/" + p
-            through_ds = any(k == "d" and (ab + "/").startswith(q + "/") and ab != q for q, k in nodes)
+            through_ds = any(k == "d" and (ab + "/").startswith(q + "/") and ab != q for q, k in nodes_after)
             if p and not through_ds and not case_malformed([p]):
                 queries.append(["in", g, p])
-        cases.append(dict(kind="plant", drv=drv, nodes=nodes, queries=queries))
+        cases.append(dict(kind="plant", drv=drv, nodes=nodes, rawops=rawops, queries=queries))
     return cases
 
 
